@@ -82,9 +82,12 @@ def expected_callbacks(sc, res, lost_ok=False):
 
 def observed_callbacks(res):
     obs = Counter()
+    fd = [sd.get('dll', 'j1939-21') != 'j1939-21' for sd in res.sc['stacks']]
     for e in res.trace:
         if e[2] == 'cb':
             t, j, _, cid, prio, pgn, sa, data = e
+            if fd[j] and len(data) == 12 and (data[0] & 0xF) == 3 and data[7] == 0xFF and data[8] == 0xFF:
+                continue     # FD end-of-message acknowledge reported to the originator's listeners
             obs[(j, cid, pgn, sa, tuple(data))] += 1
     return obs
 
